@@ -31,12 +31,14 @@ TRUSTED = [
     "Spec/TdFloat.v (SpecFloat binary64 + CPython's float/timedelta primitives) as validated by C09's tdfloat-* streams; Model/Duration.v (Duration.__new__) as validated by C09",
     "Python's binary operator protocol for a heap subclass of timedelta (subclass-first reflected call, NotImplemented -> TypeError, inherited reflected slots are timedelta's own "
     "arithmetic on the native values) is hand-modelled in Model/DurationOps.arith_op and validated by the type-table stream on every run",
-    "float premises addsub_float_exact / mul_float_exact of Proofs/C10Facts.v (the float reconstruction Duration(seconds=<float sum/product>) is exact below 2^31 s): NOT proved; "
-    "carried as explicit premises by the *_partial theorems; validated on every run by the pairs-add / pairs-sub / pairs-mul streams (inside the domain) and band-* streams (outside: known finding); C09's float_split_exact_on_D9 likewise",
+    "float premises addsub_float_exact / mul_float_exact of Proofs/C10Facts.v (the float reconstruction Duration(seconds=<float sum/product>) is exact below 2^31 s): PROVED "
+    "(Proofs/FloatRoundTripC10.v, through Flocq: addsub_float_exact_proved, mul_float_exact_proved), as is C09's float_split_exact_on_D9 (Proofs/FloatRoundTripC09.v); the *_partial theorems keep them as "
+    "explicit premises and add_exact / sub_exact / mul_int_exact state the same without premise; additionally exercised on every run by the pairs-add / pairs-sub / pairs-mul streams (inside the domain) "
+    "and band-* streams (outside: known finding)",
 ]
 ASSUMPTIONS = [
     "operands are Python ints (not bool), floats, pendulum Durations built from integer arguments, plain datetime.timedelta, Intervals of naive datetimes",
-    "exactness of + - and int * is claimed (and proved modulo the float premises) only while operands and result stay below 2^31 s; beyond, see finding float-total-resolution",
+    "exactness of + - and int * is claimed (and proved, unconditionally: add_exact / sub_exact / mul_int_exact) only while operands and result stay below 2^31 s; beyond, see finding float-total-resolution",
     "CPython (non-PyPy) branch of duration.py",
 ]
 
@@ -1094,22 +1096,24 @@ def known(c, backend, r):
 LEVEL_TEXT = ("Machine-checked Coq theorems about an executable model of Duration's operators assembled from translated integer parts (_divide_and_round, _to_microseconds, "
               "every integer constructor argument, the isinstance return-type table) and hand-modelled SpecFloat parts, equal to the implementation on every run (both backends): "
               "_divide_and_round is round-half-even of the exact quotient for all integers; negation, floor/true division, modulo, divmod (by an int / float, by a Duration and by a "
-              "plain timedelta alike: the operand kind is proved irrelevant, at every position of every process history), float scaling agree with exact timedelta arithmetic; + - and int scaling agree given explicit float premises (validated each run) below 2^31 s; return-type table; comparisons and hash are timedelta's.")
+              "plain timedelta alike: the operand kind is proved irrelevant, at every position of every process history), float scaling agree with exact timedelta arithmetic; + - and int scaling agree below 2^31 s (add_exact / sub_exact / mul_int_exact: the float premises of the *_partial forms are proved through Flocq); return-type table; comparisons and hash are timedelta's.")
 DESIGN_REF = "DESIGN.md section 4 C10"
 LEVEL_NOTE = ("Process histories: the model run_history is stateless by construction (the state of a process is the list of objects returned so far) and is compared with one "
               "interpreter executing the same calls in order; result_independent_of_history / earlier_call_leaves_no_trace / history_divisor_kind_irrelevant / touch_hands_on_the_object / "
               "chain_mod_then_div_partial are proved about it, and divisor_memo_by_timedelta_eq_refuted shows on a counter-model why a memo keyed by timedelta's == / hash is not transparent "
               "(so single-call streams cannot see it). Not in the model (oracle / execution only): AbsoluteDuration operands, object identity (share=1), what the accessors cache. "
-              "Two float premises (exactness of Duration(seconds=<float>) for sums/products below 2^31 s) and C09's float_split premise are explicit hypotheses of the *_partial theorems, "
-              "not axioms. The remaining defect of the current code is proved as *_refuted witnesses: + - and int * lose a microsecond from 2^31 s. Division by a plain timedelta "
+              "The two float premises (exactness of Duration(seconds=<float>) for sums/products below 2^31 s) and C09's float_split premise are explicit hypotheses of the *_partial theorems, "
+              "not axioms, and all three are proved (Proofs/FloatRoundTripC10.v, Proofs/FloatRoundTripC09.v; Flocq's binary64 correctness + an error budget of 2^-21 s), so add_exact / sub_exact / "
+              "mul_int_exact and the other unconditional forms rest only on the real-number axioms listed under trusted. The remaining defect of the current code is proved as *_refuted witnesses: + - and int * lose a microsecond from 2^31 s. Division by a plain timedelta "
               "(formerly AttributeError, finding div-by-plain-timedelta) is repaired: div_mod_by_timedelta_spec / div_by_timedelta_agrees hold at full strength and a regression is a VIOLATION.")
 TECHNIQUE = "translator (py2gallina + per-branch constructor-argument extraction) + Coq proof (lia/nia over floor division, vm_compute witnesses) + differential correspondence + stdlib timedelta/Fraction oracle"
 
 
-# C09's float premise float_split_exact_on_D9 is a theorem (Proofs/FloatRoundTripC09.v); the statements that carried it are restated without premise
+# the float premises float_split_exact_on_D9 (Proofs/FloatRoundTripC09.v) and addsub_float_exact / mul_float_exact (Proofs/FloatRoundTripC10.v) are theorems;
+# the statements that carried them are restated without premise
 TRUSTED = list(TRUSTED) + [
-    "Flocq (installed library) correctness theorems for binary64 operations, bridged to Coq's SpecFloat in coq/Proofs/FloatRoundTripBase.v",
-    "standard-library axioms reported by Print Assumptions for the unconditional float theorems only (to_microseconds_constructed, remainder_constructible, chain_mod_then_div): ClassicalDedekindReals.sig_not_dec, "
+    "Flocq (installed library) correctness theorems for binary64 operations, bridged to Coq's SpecFloat in coq/Proofs/FloatRoundTripBase.v / FloatRoundTripNear.v (Bplus, Bminus, Bmult, Bdiv, binary_round; relative_error_N_FLT)",
+    "standard-library axioms reported by Print Assumptions for the unconditional float theorems only (to_microseconds_constructed, remainder_constructible, chain_mod_then_div, add_exact, sub_exact, mul_int_exact): ClassicalDedekindReals.sig_not_dec, "
     "ClassicalDedekindReals.sig_forall_dec, FunctionalExtensionality.functional_extensionality_dep, Classical_Prop.classic (the real-number axioms Flocq and Reals rest on); "
     "every other theorem, the *_partial forms included, is closed under the global context",
 ]
